@@ -63,4 +63,16 @@ CHECKS = {
         "assumptions": ["merge parents are distinct committed nodes (what the merge endpoint is documented to take)",
                         "on a conflict (>=2 unsuperseded live values) both an error and 'absent' are accepted, a value is not"],
     },
+    "C05": {
+        "pkg": "c05",
+        "level": "exploration",
+        "tests": [
+            T("TestC05History", (400, 4), (5000, 16)),
+            T("TestC05BulkDeleteRange", (25, 4), (300, 16)),
+        ],
+        "required_classes": ["hist/delrange", "hist/merge", "hist/binary-values", "hist/query-lo>hi", "bulk/span-multiple-of-batch"],
+        "rule": "rapid-generated histories (put/del over HTTP on open nodes, commit, newversion, branch, merge, storage-level DeleteRange) over a 10-key universe built from prefix-related keys, followed by range queries (node, [lo,hi]) with ends from the universe plus never-stored keys incl. lo>hi: storage GetRange/KeysInRange/SendKeysInRange/ProcessRange and HTTP keys, keyrange, keyrangevalues (protobuf|tar|json), GET keyvalues (protobuf|jsontar|json) all compared with HTTP point reads of every universe key in the interval (and those with the DAG model); after every DeleteRange a full point-read sweep of all (key,node) pairs. Bulk test: N keys at the root, DeleteRange at a child/grandchild over an interval whose size is steered to the store's batch size (1,2,3,17,998..1002,1999..2001,3000), KeysInRange at every node + edge point reads. Non-trivial: a query whose interval holds >=1 present and >=1 absent/tombstoned key on a DAG with a branch (history); span>=2 (bulk). Distinct = hash of the case value.",
+        "assumptions": ["keys are alphanumeric (help text); values are JSON for the json variants (documented requirement) and arbitrary non-empty bytes otherwise",
+                        "an interval that contains a key with an unresolved merge conflict at the queried version may be refused; DeleteRange over such an interval is not exercised"],
+    },
 }
